@@ -24,7 +24,7 @@ func init() {
 		Name: "csrf", Property: "C16", Level: "exploration",
 		Main:       csrfMain,
 		MaxSimTime: 6 * time.Hour,
-		Rule: "per run the tape draws backend (built-in memory storage / SimStorage with optional Get/Set/Delete faults / session store behind the session middleware), extractor (header, form urlencoded+multipart, query, param, cookie), " +
+		Rule: "per run the tape draws backend (built-in memory storage / SimStorage with optional Get/Set/Delete faults / in-repo internal/storage/memory as external storage / session store behind the session middleware), extractor (header, form urlencoded+multipart, query, param, cookie), " +
 			"SingleUseToken, IdleTimeout, CookieSessionOnly, cookie name, key generator (counter based / default UUID), TrustedOrigins (exact, trailing slash, wildcard subdomain), proxy trust mode, route-level or app-level registration, clock phase, " +
 			"1-3 browsers and 4-28 sequential steps: safe request, unsafe request (token: current/none/forged/other browser's/stale/mangled x cookie: natural/equal/absent/different x Origin and Referer from 10+ classes x http/https x Host), " +
 			"DeleteToken route (GET/POST), cookie tampering, time advances around the idle timeout; " +
@@ -36,13 +36,14 @@ func init() {
 			"a token is 'issued' if the configured KeyGenerator returned it (runs with the default UUID generator: if a response cookie carried it)",
 			"with the session backend the store consulted is the browser's session: a token of another session counts as not issued to that store",
 			"completeness (a request the model admits is admitted; a safe request leaves a usable cookie) is demanded in fault-free runs only; after an injected Delete error the consumed/deleted state of the tokens of that request is unknown",
+			"external storages get a private copy of the key (as a storage behind a wire serialises it); in a quarter of the fault-free header/cookie-extractor runs the string handed to Storage.Set is also kept and compared after every later request (oracle storage-key-aliases-request-buffer)",
 			"storage faults are injected on the SimStorage backend only; Origin/Referer values are those a browser can produce (no upper-case origins, no explicit default ports)",
 		},
 		Components: map[string]string{
 			"csrf middleware (handler, extractors, managers, origin checks)": "real (instrumented)",
 			"session middleware + store (session backend runs)":              "real (instrumented)",
 			"internal/memory storage + GC":                                   "real (instrumented), chosen per run",
-			"external storage":                                               "stub SimStorage (TTL on the coarse clock) with error injection, chosen per run",
+			"external storage":                                               "stub SimStorage (TTL on the coarse clock) with error injection, or the real in-repo internal/storage/memory, behind a key-copying wrapper; chosen per run",
 			"utils.Timestamp updater":                                        "stub daemon on the simulated clock, random phase",
 			"browser cookie store":                                           "stub harness.Browser (RFC 6265 subset, net/http response parser)",
 			"fasthttp accept loop / worker pool / TLS":                       "stub (harness.Conn, scheme via forwarded headers); codecs real",
@@ -86,47 +87,35 @@ type csrfOp struct {
 
 type csrfWild struct{ scheme, suffix string }
 
-// csrfStore sits between the middleware and the configured fiber.Storage.
-// clone=true models a storage behind a wire (the key is serialised: SimStorage);
-// clone=false hands the key through untouched (in-process storage, the in-repo
-// internal/storage/memory) and remembers the string it was given, so that an
-// oracle can tell whether that string was changed afterwards (it aliased a
-// request buffer).
+// csrfStore sits between the middleware and the configured fiber.Storage. The
+// inner storage always gets a private copy of the key (as a storage behind a
+// wire would serialise it), so its behaviour never depends on who owns the
+// memory of the key string. With track=true the wrapper also keeps the string
+// exactly as it was handed to Set, so that an oracle can tell whether that
+// string changed afterwards, i.e. pointed into a reusable request buffer: an
+// in-process storage that keeps its key (the in-repo internal/storage/memory
+// does: s.db[key] = e) would lose or confuse the entry (Go map look-ups under a
+// mutated key depend on the per-map hash seed, so the consequence itself cannot
+// be replayed; the cause can).
 type csrfStore struct {
 	inner fiber.Storage
-	clone bool
+	track bool
 	given map[string]string // private copy of the key at Set time -> the string as handed over
 }
 
-func (w *csrfStore) Get(key string) ([]byte, error) {
-	if w.clone {
-		key = strings.Clone(key)
-	}
-	return w.inner.Get(key)
-}
+func (w *csrfStore) Get(key string) ([]byte, error) { return w.inner.Get(strings.Clone(key)) }
 
 func (w *csrfStore) Set(key string, val []byte, exp time.Duration) error {
-	if w.clone {
-		return w.inner.Set(strings.Clone(key), val, exp)
+	k := strings.Clone(key)
+	if w.track {
+		w.given[k] = key
 	}
-	w.given[strings.Clone(key)] = key
-	return w.inner.Set(key, val, exp)
+	return w.inner.Set(k, val, exp)
 }
 
-func (w *csrfStore) Delete(key string) error {
-	if w.clone {
-		key = strings.Clone(key)
-	}
-	return w.inner.Delete(key)
-}
-func (w *csrfStore) Reset() error { return w.inner.Reset() }
-func (w *csrfStore) Close() error { return w.inner.Close() }
-
-// mutated: the key string handed to Set for this token no longer reads as the token.
-func (w *csrfStore) mutated(tok string) bool {
-	g, ok := w.given[tok]
-	return ok && g != tok
-}
+func (w *csrfStore) Delete(key string) error { return w.inner.Delete(strings.Clone(key)) }
+func (w *csrfStore) Reset() error            { return w.inner.Reset() }
+func (w *csrfStore) Close() error            { return w.inner.Close() }
 
 // csrfOriginOf extracts scheme://authority from a header value the way RFC 6454
 // defines the origin of a URL; ok=false if the value is not an absolute
@@ -225,11 +214,14 @@ func csrfMain(s *simrt.Sim, info *harness.RunInfo) {
 	idle := simrt.PickS(s, 20*time.Second, 3*time.Second, 6*time.Second, 90*time.Second, 20*time.Second, 6*time.Second, 0)
 	sessionOnly := s.Chance(300)
 	cookieName := simrt.PickS(s, "csrf_", "__Host-csrf_", "xsrf")
-	customGen := !s.Chance(150)
+	customGen := !s.Chance(150) || backend == "sim" // SimStorage logs its keys: random tokens would make the event log irreproducible
 	exactMode := s.Draw(4)
 	wildcard := s.Chance(500)
 	proxyMode := simrt.PickS(s, 0, 0, 0, 1, 1, 2) // 0 TrustProxy off, 1 on + client is a trusted proxy, 2 on + client not trusted
 	routeLevel := extractor == "param" || s.Chance(250)
+	// header and cookie values live in buffers owned by the connection's request object
+	// (created per run): only there is the content of a retained key string reproducible
+	trackKeys := !faults && (backend == "sim" || backend == "extmem") && (extractor == "header" || extractor == "cookie") && s.Chance(250)
 	hostility := simrt.PickS(s, 300, 100, 600, 900) // permille of unsafe requests with a hostile token / origin part
 	nb := s.Range(1, 3)
 	nsteps := s.Range(4, 28)
@@ -362,9 +354,10 @@ func csrfMain(s *simrt.Sim, info *harness.RunInfo) {
 				cur.dF = true
 			}
 		}
-		cfg.Storage = &csrfStore{inner: sim, clone: true}
+		ext = &csrfStore{inner: sim, track: trackKeys, given: map[string]string{}}
+		cfg.Storage = ext
 	case "extmem":
-		ext = &csrfStore{inner: simexport.NewMemoryStorage(), given: map[string]string{}}
+		ext = &csrfStore{inner: simexport.NewMemoryStorage(), track: trackKeys, given: map[string]string{}}
 		cfg.Storage = ext
 	case "session":
 		nsess := 0
@@ -378,8 +371,8 @@ func csrfMain(s *simrt.Sim, info *harness.RunInfo) {
 		app.Use(sh)
 		cfg.Session = store
 	}
-	cfgLine := fmt.Sprintf("faults=%v(get=%d set=%d del=%d) backend=%s extractor=%s header=%s singleUse=%v idle=%v sessionOnly=%v cookie=%s customGen=%v trusted=%q proxyMode=%d routeLevel=%v hostility=%d browsers=%d steps=%d host=%s phase=%d",
-		faults, failGet, failSet, failDel, backend, extractor, headerName, singleUse, idle, sessionOnly, cookieName, customGen, trusted, proxyMode, routeLevel, hostility, nb, nsteps, mainHost, phase)
+	cfgLine := fmt.Sprintf("faults=%v(get=%d set=%d del=%d) backend=%s extractor=%s header=%s singleUse=%v idle=%v sessionOnly=%v cookie=%s customGen=%v trusted=%q proxyMode=%d routeLevel=%v trackKeys=%v hostility=%d browsers=%d steps=%d host=%s phase=%d",
+		faults, failGet, failSet, failDel, backend, extractor, headerName, singleUse, idle, sessionOnly, cookieName, customGen, trusted, proxyMode, routeLevel, trackKeys, hostility, nb, nsteps, mainHost, phase)
 	s.Logf("cfg %s", cfgLine)
 
 	mw := csrf.New(cfg)
@@ -500,6 +493,9 @@ func csrfMain(s *simrt.Sim, info *harness.RunInfo) {
 			s.Logf("step%d sleep %v -> t=%s", step, think, time.Now().Format("15:04:05.000"))
 		}
 		k := s.Draw(20)
+		if k >= 6 && k < 18 && curCookie(b) == "" && !s.Chance(250) {
+			k = 0 // a browser without a token cookie normally loads a page first
+		}
 		if k >= 18 {
 			// tamper with the browser's stored cookie
 			var v, what string
@@ -804,9 +800,6 @@ func csrfMain(s *simrt.Sim, info *harness.RunInfo) {
 					id := "C16.valid-request-rejected"
 					if op.https && oAbsent && op.refPath && (op.refKind == "trusted" || op.refKind == "wild-sub") {
 						id = "C16.trusted-referer-with-path-rejected"
-					} else if ext != nil && ext.mutated(op.x) {
-						id = "C16.external-storage-key-aliased-token-lost"
-						s.Logf("the key string handed to Storage.Set for %s now reads differently (%d bytes): it aliases a request buffer", alias(op.x), len(ext.given[op.x]))
 					}
 					s.Fail(id, "op%d (b%d %s %s://%s%s at %s) was rejected with status %d although the model admits it: token %s(%s) issued, live until %s, equals the cookie; Origin %q(%s), Referer %q(%s), trusted %q",
 						op.id, bi, op.method, scheme, op.host, shown, now.Format("15:04:05.000"), op.status, alias(op.x), op.xKind, tk.untilMin.Format("15:04:05.000"), op.origin, op.originKind, op.referer, op.refKind, trusted)
@@ -818,6 +811,14 @@ func csrfMain(s *simrt.Sim, info *harness.RunInfo) {
 				admitted++
 			} else {
 				rejected++
+			}
+			switch {
+			case len(deny) > 0:
+				s.Count("probe_model_rejects_" + deny[0])
+			case undecided:
+				s.Count("probe_model_undecided_expiry_band_or_failed_delete")
+			default:
+				s.Count("probe_model_admits")
 			}
 		} else {
 			// safe methods always pass
@@ -834,6 +835,16 @@ func csrfMain(s *simrt.Sim, info *harness.RunInfo) {
 		}
 		if customGen && respTok != "" && tokens[respTok] == nil {
 			s.Fail("C16.cookie-token-not-issued", "op%d (b%d %s %s, cookie sent %s(%s)): the response leaves a CSRF cookie whose value (%d bytes) the key generator never produced", op.id, bi, op.method, shown, alias(op.cookie), op.cookieKind, len(respTok))
+		}
+
+		if ext != nil && ext.track {
+			for _, tkn := range seen {
+				if g, ok := ext.given[tkn]; ok && g != tkn {
+					s.Fail("C16.storage-key-aliases-request-buffer", "after op%d (b%d %s %s): the key string the middleware handed to Storage.Set for token %s no longer reads as that token (%d bytes, changed by a later request): it points into a reusable request buffer, so a storage that keeps its key in process (internal/storage/memory does) loses or confuses the token",
+						op.id, bi, op.method, shown, alias(tkn), len(g))
+					break
+				}
+			}
 		}
 
 		// ---- model update ----
